@@ -20,11 +20,14 @@ import (
 )
 
 type Tmpl struct {
-	Name   string
-	Class  string
-	Kind   string // prog | host
-	Src    string
-	Expect string // "" when only the compiled program is the expectation
+	Name    string
+	Class   string
+	Kind    string // prog | host
+	Src     string
+	Expect  string // "" when only the compiled program is the expectation
+	RefSrc  string // what the toolchain compiles when it differs from Src (Src imports the host package verif)
+	Parties int    // > 0: the program calls verif.Mark before the statement under test; one configuration runs it
+	// under the lock-step barrier with that many goroutines
 	// host
 	Fn, Final string
 	N, Calls  int
@@ -36,6 +39,7 @@ var templates = []func(r *rand.Rand) Tmpl{
 	tPipeline, tWorkerPool, tSelectPrivate, tMutexCounter, tProducerConsumer, tFanInSlots, tClosureLoop,
 	tGoArgCopy, tSelectMux, tPingPong, tParallelFib, tMethodGoroutines, tSemaphore, tSelectSharedSend,
 	tGoBinArgs, tRWMutexMap, tOnceAtomic, tNestedSpawn, tSelectDefaultPoll, tGoBinNoReassign, tMethodViaClosure, tGoFuncVar, tClosureSlice,
+	tPrivateRecv, tPrivateRecv2, tPrivateSend, tPrivateRange, tPrivateSelect,
 }
 
 func tPipeline(r *rand.Rand) Tmpl {
@@ -1031,6 +1035,138 @@ func main() {
 	fmt.Println("got", got, "sum", sum)
 }
 `, n)}
+}
+
+// One template per channel closure kind (recv, recv2, send, rangeChan, _select): W goroutines run the SAME function,
+// each on PRIVATE channels (input filled and closed before the start, output drained by main afterwards); every
+// value carries its owner, so a value delivered to or sent by the wrong goroutine is counted. The goroutines call
+// verif.Mark right before the statement under test: under the lock-step schedule they execute its closure together.
+func privateKind(r *rand.Rand, kind, loop string) Tmpl {
+	w, n := 2, 150+r.Intn(400)
+	if r.Intn(3) == 0 {
+		w = 3 + r.Intn(3)
+	}
+	var exp strings.Builder
+	for i := 0; i < w; i++ {
+		fmt.Fprintf(&exp, "worker %d in %d out %d wrong 0\n", i, n, n)
+	}
+	body := func(imp, stub string) string {
+		return fmt.Sprintf(`package main
+
+import (
+	"fmt"
+	"sync"
+%s)
+%s
+func worker(w int, n int, in chan int, out chan int, res []int, wg *sync.WaitGroup) {
+	got, wrong := 0, 0
+%s
+	res[2*w], res[2*w+1] = got, wrong
+	close(out)
+	wg.Done()
+}
+
+func main() {
+	const W, N = %d, %d
+	res := make([]int, 2*W)
+	ins := make([]chan int, W)
+	outs := make([]chan int, W)
+	var wg sync.WaitGroup
+	for w := 0; w < W; w++ {
+		ins[w] = make(chan int, N)
+		outs[w] = make(chan int, N)
+		for k := 0; k < N; k++ {
+			ins[w] <- w*1000000 + k
+		}
+		close(ins[w])
+	}
+	for w := 0; w < W; w++ {
+		wg.Add(1)
+		go worker(w, N, ins[w], outs[w], res, &wg)
+	}
+	wg.Wait()
+	for w := 0; w < W; w++ {
+		o := outs[w]
+		sent, wrong := 0, res[2*w+1]
+		for k := len(o); k > 0; k-- {
+			v := <-o
+			sent++
+			if v/1000000 != w {
+				wrong++
+			}
+		}
+		fmt.Println("worker", w, "in", res[2*w], "out", sent, "wrong", wrong)
+	}
+}
+`, imp, stub, loop, w, n)
+	}
+	return Tmpl{Name: "private-" + kind, Kind: "prog", Expect: exp.String(), Parties: w,
+		Src:    body("\t\"verif\"\n", ""),
+		RefSrc: body("", "\ntype verifT struct{}\n\nfunc (verifT) Mark(int) {}\n\nvar verif verifT\n")}
+}
+
+const countOwn = `		if v/1000000 == w {
+			got++
+		} else {
+			wrong++
+		}
+`
+
+func tPrivateRecv(r *rand.Rand) Tmpl {
+	return privateKind(r, "recv", `	for i := 0; i < n; i++ {
+		verif.Mark(w)
+		v := <-in
+`+countOwn+`		out <- v
+	}`)
+}
+
+func tPrivateRecv2(r *rand.Rand) Tmpl {
+	return privateKind(r, "recv2", `	for {
+		verif.Mark(w)
+		v, ok := <-in
+		if !ok {
+			break
+		}
+`+countOwn+`		out <- v
+	}`)
+}
+
+func tPrivateSend(r *rand.Rand) Tmpl {
+	return privateKind(r, "send", `	for i := 0; i < n; i++ {
+		v := <-in
+`+countOwn+`		verif.Mark(w)
+		out <- v
+	}`)
+}
+
+func tPrivateRange(r *rand.Rand) Tmpl {
+	return privateKind(r, "range", `	verif.Mark(w)
+	for v := range in {
+`+countOwn+`		out <- v
+		verif.Mark(w)
+	}`)
+}
+
+func tPrivateSelect(r *rand.Rand) Tmpl {
+	return privateKind(r, "select", `	for open := true; open; {
+		verif.Mark(w)
+		select {
+		case v, ok := <-in:
+			if !ok {
+				open = false
+			} else {
+				if v/1000000 == w {
+					got++
+				} else {
+					wrong++
+				}
+				verif.Mark(w)
+				select {
+				case out <- v:
+				}
+			}
+		}
+	}`)
 }
 
 // ---- stream C: one exported function called by N host goroutines ----
